@@ -76,6 +76,18 @@ func main() {
 		fmt.Sscan(s, &seed)
 	}
 	t0 := time.Now()
+	if *verbose {
+		var mu sync.Mutex
+		n := 0
+		SlowLog = func(d time.Duration, res string, asserts []string) {
+			mu.Lock()
+			defer mu.Unlock()
+			n++
+			if n <= 12 {
+				fmt.Fprintf(os.Stderr, "  slow query %.1fs -> %s: %s\n", d.Seconds(), res, trunc(strings.Join(asserts, " ; "), 600))
+			}
+		}
+	}
 
 	var checks map[string]*CheckCfg
 	bz, err := os.ReadFile(filepath.Join(*verifDir, "checks.json"))
